@@ -336,3 +336,36 @@ def gen_trim_graph(name, wb, pool, src, choices, settable=None, timeout=1800):
         raise tlc.MachineryFailure(
             f'export incomplete: {len(g.states)} states parsed, TLC found {res.distinct}')
     return g
+
+
+# ---------------------------------------------------------------------------
+# Validate.tla (C12)
+
+def run_validate_model(name, wb, outlists, tols, perturbs, broken, timeout=1800):
+    """TLC explores validate_calcs for every (perturbation, outputs, tol) choice;
+    returns (tlc result, list of exported final reports)"""
+    d = tlc.new_scratch('val')
+    mod = f'MC_{name}_val'
+    extra = '\n'.join([
+        'MCOutputLists == ' + W.tla_set(W.tla_seq(map(W.q, o)) for o in outlists),
+        'MCTols == ' + W.tla_set(map(str, tols)),
+        'MCPerturbs == ' + W.tla_set(f'<<{W.q(c)}, {W.tla_val(v)}>>' for c, v in perturbs),
+        'MCBroken == ' + W.tla_set(map(W.q, broken)),
+    ])
+    with open(os.path.join(d, mod + '.tla'), 'w') as f:
+        f.write(W.tla_constants(wb, [1], 'Stored', mod, extends='Validate', extra=extra))
+    with open(os.path.join(d, 'v.cfg'), 'w') as f:
+        f.write(W.CONST_CFG + '  OutputLists <- MCOutputLists\n  Tols <- MCTols\n'
+                '  Perturbs <- MCPerturbs\n  Broken <- MCBroken\n'
+                'SPECIFICATION VSpec\n'
+                'INVARIANT ConsistentEmpty\nINVARIANT PerturbedNamed\n'
+                'INVARIANT OnlyDependants\nINVARIANT UnevaluableReported\n'
+                'INVARIANT Export\n')
+    res = tlc.run(mod, os.path.join(d, 'v.cfg'), spec_dir=d, workers=1,
+                  library=tlc.SPEC, timeout=timeout, heap='3g')
+    if not res.ok:
+        raise tlc.MachineryFailure(
+            f'Validate model {name} violates {res.violated}:\n'
+            + '\n'.join(l for l in res.stdout.splitlines()
+                        if not l.startswith('"'))[-3000:])
+    return res, res.json
